@@ -22,6 +22,8 @@ claimed["C15"] = ("other", "Bounded symbolic execution of And/Or/Sans/Xor on arb
 claimed["C16"] = ("other", "Bounded symbolic execution of Merge, Extract and Concatenate on operands with symbolic contents (key coincidences chosen by the solver); documented laws through every view; purity and absence of shared mutable state by writing through one side and re-checking the other; aliased operands.", "symbolic execution of go/ssa + SMT (z3)", "3/C16")
 claimed["C18"] = ("other", "Bounded symbolic execution of every API entry point that accepts or returns a Go array, map or sequence: one side is overwritten with fresh symbolic values at every position, the other must still read its old contents (unsat of 'they differ'); self-operand bulk operations compared with copy semantics.", "symbolic execution of go/ssa + SMT (z3)", "3/C18")
 claimed["C20"] = ("other", "Finite matrix of universal constructors x argument forms x element types with symbolic contents, each compared with the class-level constructor; CDCN-source form via a stub notation with symbolic parse result; Stack/Queue sizes spanning the default capacity; Association for ten type pairs.", "symbolic execution of go/ssa + SMT (z3), form/type matrix enumerated", "3/C20")
+claimed["C07"] = ("other", "Bounded symbolic execution of the real reflective collator through the engine's reflect model on triples of symbolic values per type and shape: reflexivity, mirror, transitivity, natural order, depth restoration, history independence, map-order independence. Floats are IEEE terms (NaN, signed zeros included); complex numbers only at enumerated special values. Listed known findings: NaN and special complex values.", "symbolic execution of go/ssa with a reflect model + SMT (z3, cvc5 for 64-bit order / floats)", "3/C07", "The reflect model is part of the trusted base; complex magnitude/phase are outside SMT reach (special values enumerated).")
+claimed["C08"] = ("other", "Bounded symbolic execution of CompareValues/RankValues: equivalence laws, agreement with ranking, rebuilt copies equal, every single-point mutation unequal (symbolic replacement leaf: equal iff leaf equal), cyclic values end in the depth-limit panic and the same collator keeps working, List/Set membership agreement.", "symbolic execution of go/ssa with a reflect model + SMT (z3, cvc5)", "3/C08")
 reasons = {}
 
 checks = []
